@@ -232,6 +232,11 @@ func runC06(tier string) *vf.Run {
 		goneWG.Add(1)
 		go func() { defer goneWG.Done(); runC06Gone(run) }()
 	}
+	if (os.Getenv("C06_ONLY") == "" || os.Getenv("C06_ONLY") == "full") && *fCase < 0 {
+		// ninth class: an unprocessable message met while the target's event queue is full (see c06_full.go)
+		goneWG.Add(1)
+		go func() { defer goneWG.Done(); runC06Full(run) }()
+	}
 	defer goneWG.Wait()
 	parallel(len(cases), run.Pick(8, 10), func(i int) {
 		c := cases[i]
